@@ -31,6 +31,7 @@ func cmdPlacement(args []string) {
 	hists := fs.Int("hist", 4, "e2e: histories")
 	steps := fs.Int("steps", 40, "e2e: steps per history")
 	hang := fs.Int("hang-s", 30, "e2e: seconds after which an insert request is reported as not returning")
+	big := fs.Bool("big", false, "e2e: thousand-point batches")
 	fs.Parse(args)
 	tw, err := trace.NewWriter(*out)
 	if err != nil {
@@ -44,7 +45,7 @@ func cmdPlacement(args []string) {
 	case "random":
 		placed.Random(tw, *seed, *n)
 	case "e2e":
-		if err := placed.RunE2E(tw, placed.E2EOpts{Hang: time.Duration(*hang) * time.Second, Seed: *seed, Hists: *hists, Steps: *steps, Dir: *dir}); err != nil {
+		if err := placed.RunE2E(tw, placed.E2EOpts{Hang: time.Duration(*hang) * time.Second, Seed: *seed, Hists: *hists, Steps: *steps, Dir: *dir, Big: *big}); err != nil {
 			tw.Close()
 			fmt.Fprintln(os.Stderr, "placement e2e:", err)
 			os.Exit(3)
